@@ -84,11 +84,13 @@ def check(repo, tier):
 
     for d in orders:
         subsets = [list(c) for k in range(1, d + 1) for c in itertools.combinations(range(d), k)]
-        for meas in subsets:
-            scen = f'sampling(order={d}, measured={meas})'
+        # complex amplitudes throughout, and hand-built states whose first core is real while later cores carry the phases (mixed core dtypes)
+        grid = [(m_, 'complex') for m_ in subsets] + ([(list(range(d)), ['real'] + ['complex'] * (d - 1)), ([d - 1], ['real'] + ['complex'] * (d - 1))] if d >= 2 else [])
+        for meas, dts in grid:
+            scen = f'sampling(order={d}, measured={meas})' + ('' if dts == 'complex' else ' [first core real, later cores complex]')
 
-            def body(sc, d=d, meas=meas):
-                psi = sc.tt('psi', d, 'vec', row=[2] * d, dtype='complex')
+            def body(sc, d=d, meas=meas, dts=dts):
+                psi = sc.tt('psi', d, 'vec', row=[2] * d, dtype=dts)
                 sc.inputs = (psi,)
                 sc.old = (list(psi._attrs['cores']), list(psi._attrs['ranks']))
                 sc.nsamp = sc.atom('nsamp')
@@ -99,6 +101,7 @@ def check(repo, tier):
                     l2rules.raised_finding(run, 'C20', 'D5', repo, ENTRY, scen, exc)
                     continue
                 _one_path(run, repo, sc, res, scen, d, meas, F)
+                _value_rules(run, repo, sc, scen, F)
     l2rules.frame_obligations(run, 'C20', 'D5', repo, [ENTRY])
     run.floor('obligations decided', run.obligations, 60 if tier == 'quick' else 120)
     return run
@@ -200,7 +203,7 @@ def _one_path(run, repo, sc, res, scen, d, meas, F):
         nso = num.tags.get('sel_of') if isinstance(num, Arr) else None
         if not nso:
             raise AnalysisError(f'{scen}: numerator of the conditional probability of column {j}: form not recognised')
-        X, nsel = nso
+        X, nsel = _strip(nso[0]), nso[1]          # (np.real / a copy of the weights, all bonds closed, does not change which numbers are meant)
         ints = [(ax, s_[1]) for ax, s_ in enumerate(nsel) if s_[0] == 'int']
         if len(ints) != 1 or not isinstance(ints[0][1], int) or any(s_[0] not in ('int', 'all') for s_ in nsel):
             raise AnalysisError(f'{scen}: numerator of the conditional probability of column {j} is not one slice of the weights: {nsel}')
@@ -269,6 +272,8 @@ def _one_path(run, repo, sc, res, scen, d, meas, F):
         if meas[j] not in reached:
             raise AnalysisError(f'{scen}: measured site {j}: the state core of site {meas[j]} does not reach the weights on any path the analysis follows')
         for s_, core in sorted(reached.items()):
+            if core.dt != 'complex':
+                continue          # (a real core is its own conjugate)
             par = l2rules.conj_parities(T, lambda a_, core=core: _is_input(a_) and a_.tags['input'] == core.tags['input'])
             run.oblige('D1', (ENTRY, scen, j, s_, 'Born'), par == {0, 1})
             if par != {0, 1}:
@@ -314,6 +319,7 @@ def _one_path(run, repo, sc, res, scen, d, meas, F):
         th = theta_of.get(j)
         if th is None:
             continue
+        th = _strip(th)          # (a real part / copy of the environment is judged by the value rules; the chain is followed through it)
         if j == 0:
             ok0 = th.tags.get('const') == 'ones' or all(A.is_one(s_) or sz_eq(s_, nsamp) for s_ in th.shape) and not any(_is_input(a_) for a_ in _ancestors(th))
             run.oblige('D4', (ENTRY, scen, 0, 'initial environment'), bool(ok0))
@@ -329,11 +335,12 @@ def _one_path(run, repo, sc, res, scen, d, meas, F):
             ops = tuple(th.tags['factors'])
         if ops is None:
             raise AnalysisError(f'{scen}: the left environment of measured site {j} is not a contraction of two arrays -- form not recognised')
-        prev = [o for o in ops if o is theta_of.get(j - 1)]
-        others = [o for o in ops if o is not theta_of.get(j - 1)]
+        tprev = _strip(theta_of[j - 1]) if theta_of.get(j - 1) is not None else None
+        prev = [o for o in ops if _strip(o) is tprev]
+        others = [o for o in ops if _strip(o) is not tprev]
         run.oblige('D4', (ENTRY, scen, j, 'environment chain'), len(prev) == 1)
         if len(prev) != 1:
-            stale = any(o is theta_of.get(k) for o in ops for k in range(j - 1))
+            stale = any(theta_of.get(k) is not None and _strip(o) is _strip(theta_of[k]) for o in ops for k in range(j - 1))
             run.add(F('D4', 'left environment', f'{scen}: the left environment of measured site {j} is not computed from the environment of site {j - 1}'
                       + (' but from an older one: the bits drawn in between are ignored' if stale else '')))
             continue
@@ -404,6 +411,8 @@ def _one_path(run, repo, sc, res, scen, d, meas, F):
             run.add(F('D1', 'sites of the state in the conditional weights', f'{scen}: the state core(s) of site(s) {lack} never enter the weights of the last measured site: '
                       'those qubits are neither measured nor traced out'))
         for s_, core in sorted(reached.items()):
+            if core.dt != 'complex':
+                continue
             par = l2rules.conj_parities(Xl, lambda a_, core=core: _is_input(a_) and a_.tags['input'] == core.tags['input'])
             run.oblige('D1', (ENTRY, scen, 'last', s_, 'Born'), par == {0, 1})
             if par != {0, 1}:
@@ -417,3 +426,31 @@ def _one_path(run, repo, sc, res, scen, d, meas, F):
     run.oblige('D5', (ENTRY, scen, 'state untouched'), good)
     if not good:
         run.add(F('D5', 'state argument modified', f'{scen}: a core, the core list or the metadata of the quantum state was replaced or written'))
+
+
+def _value_rules(run, repo, sc, scen, F):
+    """D1: the amplitudes are complex numbers -- nowhere on the way from the state to the weights may an imaginary part be dropped: a complex value written into a real
+    array (the diagonal operator cores, an environment buffer), or the real part taken of an array that still carries an open doubled bond (a probability core or a
+    left environment is a vectorised Hermitian matrix: its off-diagonal entries are genuinely complex; only the fully contracted weights are real up to rounding)"""
+    for e in sc.events('complex-loss'):
+        where, cons, f_, ln = l2rules.ev_where(repo, e, None)
+        run.oblige('D1', (where, cons, 'complex amplitudes kept'), False)
+        run.add(Finding('C20', 'D1', where, cons, f'{scen}: {e.get("detail", "a complex value is stored into a real array")} -- the phases of the amplitudes are lost before |psi|^2 is formed',
+                        f_, ln))
+    n = 0
+    for e in sc.events('real-part'):
+        a = e['array']
+        if not any(_is_input(x) for x in _ancestors(a, stop=_is_input)):
+            continue
+        n += 1
+        kinds = [l.resolve() for g in a.legs for l in g]
+        open_bond = [l for l in kinds if l.kind == 'R' and not A.is_one(l.size)]
+        where, cons, f_, ln = l2rules.ev_where(repo, e, None)
+        if open_bond:
+            run.oblige('D4', (where, cons, scen, 'real part'), False)
+            run.add(Finding('C20', 'D4', where, cons, f'{scen}: the real part is taken of an array that still carries the open doubled bond {open_bond[:2]}: a probability core / left '
+                            'environment is a vectorised Hermitian matrix whose off-diagonal entries are complex; only fully contracted weights are real', f_, ln))
+        elif any(l.kind == 'X' and not A.is_one(l.size) and not sz_eq(l.size, sc.nsamp) for l in kinds):
+            raise AnalysisError(f'{scen}: the real part of a complex array is taken at {where} and the analysis cannot tell whether its bonds are all closed')
+        else:
+            run.oblige('D4', (where, cons, scen, 'real part'), True)
